@@ -244,22 +244,23 @@ Definition fnc_from (rest : pystr) (chars : list pystr) (start : nat) : res nat 
 Definition ch_eq (o : option ascii) (c : ascii) : bool :=
   match o with Some x => Ascii.eqb x c | None => false end.
 
-(** branch closing (lines 261-332); [rest] = pattern[stop:], the state after the node loop *)
-Definition close_branch (rest : pystr) (st : rstate) : res rstate :=
+(** one round of the branch-closing loop (lines 281-354); [rest] = pattern[stop:], [pos] = the loop's
+    `pos - stop`; returns the state and the new `pos - stop` *)
+Definition close_branch (rest : pystr) (pos : nat) (st : rstate) : res (rstate * nat) :=
   match rev (s_branch_anchor st) with
   | [] => Err EIndex                                           (* pop from empty list *)
   | a :: ra =>
       let ba := rev ra in
       let branching := match ba with [] => false | _ => true end in
-      eon_a <- fnc0 rest fnc_eon_a ;;
+      eon_a <- fnc_from rest fnc_eon_a pos ;;
+      let pos1 := (eon_a + 1)%nat in
       let c1 := nth_error rest (eon_a + 1)%nat in
       let c2 := nth_error rest (eon_a + 2)%nat in
       '(g, current, prev_node, base_anchor, recipes, pbo) <-
-        (if ch_eq c1 "|"%char || ch_eq c2 "|"%char then
-           c2v <- of_option c2 EIndex ;;
+        (if ch_eq c1 "|"%char || (ch_eq c2 "|"%char && match c1 with Some c => sto_mem c | None => false end) then
+           c1v <- of_option c1 EIndex ;;
            '(recipes, eon_a) <-
-             (if Ascii.eqb c2v "|"%char then
-                c1v <- of_option c1 EIndex ;;
+             (if negb (Ascii.eqb c1v "|"%char) then
                 anchor_order <- symbol_to_order_lookup [c1v] ;;
                 match (match rec_get a (s_recipes st) with Some v => v | None => [] end) with
                 | [] => Err EIndex
@@ -284,10 +285,20 @@ Definition close_branch (rest : pystr) (st : rstate) : res rstate :=
                    | None => Ok (s_pbo st)
                    end) ;;
            Ok (s_g st, s_current st, a, s_base_anchor st, s_recipes st, pbo)) ;;
-      Ok {| s_g := g; s_current := current; s_branch_anchor := ba;
-            s_recipes := (match ba with [] => [] | _ => recipes end);
-            s_prev_node := prev_node; s_branching := branching; s_cycle := s_cycle st;
-            s_pbo := pbo; s_attributes := s_attributes st; s_base_anchor := base_anchor |}
+      Ok ({| s_g := g; s_current := current; s_branch_anchor := ba;
+             s_recipes := (match ba with [] => [] | _ => recipes end);
+             s_prev_node := prev_node; s_branching := branching; s_cycle := s_cycle st;
+             s_pbo := pbo; s_attributes := s_attributes st; s_base_anchor := base_anchor |}, pos1)
+  end.
+(** `while _find_next_character(pattern, ['['], pos) > _find_next_character(pattern, [')'], pos)`;
+    every round moves `pos` behind a ")" of the text, so [length rest + 1] rounds of fuel cannot run out *)
+Fixpoint close_loop (fuel : nat) (rest : pystr) (pos : nat) (st : rstate) : res rstate :=
+  match fuel with
+  | O => Err EOutOfFuel
+  | Datatypes.S f =>
+      io <- fnc_from rest fnc_next_open pos ;;
+      ic <- fnc_from rest fnc_next_close pos ;;
+      if Nat.ltb ic io then '(st1, pos1) <- close_branch rest pos st ;; close_loop f rest pos1 st1 else Ok st
   end.
 
 (** one iteration of the main loop (lines 139-332) *)
@@ -338,10 +349,8 @@ Definition node_step (fo : float_oracle) (st : rstate) (prevc : ascii) (nm rest 
   let st1 := {| s_g := g; s_current := current; s_branch_anchor := branch_anchor; s_recipes := recipes;
                 s_prev_node := prev_node; s_branching := branching; s_cycle := r_cyc rs;
                 s_pbo := pbo; s_attributes := Some a; s_base_anchor := s_base_anchor st |} in
-  (* 255-256 *)
-  io <- fnc0 rest fnc_next_open ;;
-  ic <- fnc0 rest fnc_next_close ;;
-  if Nat.ltb ic io then close_branch rest st1 else Ok st1.
+  (* 268-354: `pos = stop` and the closing loop *)
+  close_loop (Datatypes.S (length rest)) rest 0 st1.
 
 Fixpoint main_loop (fuel : nat) (fo : float_oracle) (prevc : ascii) (s : pystr) (st : rstate) : res rstate :=
   match fuel with
